@@ -10,7 +10,7 @@ import z3
 
 from . import model as M
 from .model import (EMPTY, Int, Bool, KIND, NULL, PYNONE, Ref, Str, BackInserter, Bound, ElemRef, Func, Iter, Lam, NodeVal, OptNode,
-                    NodeVec, Opaque, PairVec, Ptr, PtrVec, PyObj, ScalarVec, SpecObj, Tup, fresh)
+                    NodeVec, Opaque, PairVec, Ptr, PtrVec, PyObj, PySeqIter, ScalarVec, SpecObj, Tup, fresh)
 
 # epoch-indexed length of mutable Python containers reachable from user code
 list_len_at = z3.Function('list_len_at', Ref, Int, Int)
@@ -42,6 +42,16 @@ def call(eng, n, st):
         if isinstance(v, Lam):
             return call_lambda(eng, v, args_n, st)
     name = callee_n.name or ''
+    if callee_n.k in ('CXXDependentScopeMemberExpr', 'UnresolvedMemberExpr') or \
+            (callee_n.k == 'MemberExpr' and callee_n.c):
+        # member call whose overload is unresolved in a template pattern
+        outs = []
+        base_n = callee_n.c[0] if callee_n.c else None
+        bases = eng.ev(base_n, st) if base_n is not None else [(st, st.this)]
+        for s, base in bases:
+            for s2, args in eng.ev_seq([a for a in args_n if a.k != 'CXXDefaultArgExpr'], s):
+                outs += method(eng, s2, base, name, args, n, callee_n)
+        return outs
     if callee_n.k == 'MemberExpr':       # static method through member syntax
         name = callee_n.name
     if not name and callee_n.k in ('UnresolvedLookupExpr',):
@@ -490,8 +500,8 @@ def py_model(eng, st, name, A, n):
         return [(st, None)]
     if name in ('ImportOrderedDict', 'ImportDefaultDict', 'ImportDeque', 'GetCxxModule'):
         return [(st, PyObj(z3.Const('py_' + name, Ref), stable=True))]
-    if name in ('Py_TYPE',):
-        return [(st, PyObj(M.py_type(P(0).ref)))]
+    if name in ('Py_TYPE', 'of', 'handle_of'):
+        return [(st, PyObj(M.py_type(P(0).ref), stable=True))]
     return None
 
 
@@ -544,6 +554,15 @@ def method(eng, st, base, name, A, n, callee=None):
             return [(st, o)]
         if name in ('size',):
             return [(st, M.py_len(o.ref))]
+        if name == 'begin':
+            # iter(obj): may run user code and may raise
+            eng.may_call_python(st, 'iter() of a Python iterable', line)
+            s_exc = st.clone()
+            eng.throw(s_exc, 'pybind11::error_already_set', line, 'from __iter__/__next__')
+            st.pc.append(M.iter_len(o.ref) >= 0)
+            return [(st, PySeqIter(o.ref, z3.IntVal(0)))]
+        if name == 'end':
+            return [(st, PySeqIter(o.ref, None))]
         if name == 'get_stored':
             return [(st, o)]
         if name == 'attr':
@@ -690,6 +709,9 @@ def operator_call(eng, n, st):
     op = n.c[0].name
     line = n.get('line')
     args_n = n.c[1:]
+    if op == 'operator=' and 'pybind11::arg' in args_n[0].t:
+        # py::arg("name") = value : a keyword argument for a Python call
+        return [(s, Opaque('kwarg')) for s, _v in eng.ev(args_n[1], st)]
     if op == 'operator=':
         outs = []
         for s, v in eng.ev(args_n[1], st):
